@@ -103,6 +103,18 @@ def make_device(dspec, cache=True, with_mesh=True):
     holes = [make_polygon(h, name=f"hole{i}") for i, h in enumerate(dspec.get("holes", []))]
     terms = [make_polygon(t["shape"], name=t["name"]) for t in dspec.get("terminals", [])]
     probes = dspec.get("probes")
+    origin = dspec.get("origin")
+    if origin:
+        # the whole layout sits far from the coordinate origin (a device cut out of a large layout); the shift is done by the
+        # harness on the vertex arrays, not by the library's translate()
+        o = np.array(origin, dtype=float)
+
+        def _moved(poly):
+            return tdgl.Polygon(poly.name, points=poly.points + o, mesh=poly.mesh)
+
+        film, holes, terms = _moved(film), [_moved(h) for h in holes], [_moved(t) for t in terms]
+        if probes:
+            probes = (np.array(probes, dtype=float) + o).tolist()
     dev = tdgl.Device(
         dspec.get("name", "dev"), layer=layer, film=film, holes=holes, terminals=terms,
         probe_points=(np.array(probes, dtype=float) if probes else None),
